@@ -413,6 +413,42 @@ pub fn run(args: &Args, rec: &mut Recorder) {
             boundary_case(&g, rng, rec, &bounds[case as usize]);
             return None;
         }
+        if case % 20 == 7 {
+            // IF_DATA interpreted through the A2ML block of the file: every value must be written back
+            // exactly (integers with their value, floats and doubles exactly, strings, enum words, tags)
+            let (text, flat, _n) = crate::c18::gen_conforming_document(rng);
+            rec.eval();
+            rec.nontrivial(text.as_bytes());
+            rec.bump("docs.a2ml_interpreted_if_data");
+            match load_str(&text, false) {
+                Err((sig, detail)) => rec.violation(&sig, &detail, witness_text("G-a2ml", &text, "")),
+                Ok(Err(e)) => rec.violation(
+                    &format!("document with A2ML-conforming IF_DATA is rejected: {}", crate::gram::err_class(&e)),
+                    &e.to_string(),
+                    witness_text("G-a2ml", &text, ""),
+                ),
+                Ok(Ok((m, _))) => match write(&m) {
+                    Err((sig, detail)) => rec.violation(&sig, &detail, witness_text("G-a2ml", &text, "")),
+                    Ok(out) => match compare_tokens(&flat, &out) {
+                        Err(d) => rec.violation(
+                            &format!("token mismatch: {} [A2ML-interpreted IF_DATA]", d.class),
+                            &d.msg,
+                            witness_text("G-a2ml", &text, ""),
+                        ),
+                        Ok(toks) => {
+                            if let Some((a, b)) = crate::gram::first_inexact_float(&flat, &toks) {
+                                rec.violation(
+                                    "numeric literal silently changed: float in A2ML-interpreted IF_DATA",
+                                    &format!("`{a}` written as `{b}`"),
+                                    witness_text("G-a2ml", &text, ""),
+                                );
+                            }
+                        }
+                    },
+                },
+            }
+            return None;
+        }
         let cfg = gen_cfg_wide(rng, args.thorough);
         let mut gen = DocGen::new(&g, cfg);
         let mut doc = gen.gen_doc(rng);
